@@ -13,20 +13,38 @@ for id in $ids; do
   [ -f $d/target_override ] && prop=$(cat $d/target_override)
   if ! git -C /repo diff --quiet; then echo "/repo is dirty, refusing"; exit 2; fi
   git -C /repo apply --whitespace=nowarn /verif/$d/patch.diff || { echo "$id: patch does not apply"; continue; }
-  out=$(./check $prop --tier quick 2>&1); rc=$?
+  tier=quick
+  [ -f $d/tier_override ] && tier=$(cat $d/tier_override)
+  out=$(./check $prop --tier $tier 2>&1); rc=$?
   git -C /repo checkout -- .
   # anything the run wrote into the committed replay dir belongs to the seeded change, not to the tree
   git -C /verif status --porcelain replays | awk '{print $2}' | while read f; do rm -rf "/verif/$f"; done
   git -C /verif checkout -- evidence 2>/dev/null
   detail=$(echo "$out" | grep -a "^DETAIL" | head -1 | cut -c1-300)
+  [ "$tier" = quick ] || prop="$prop($tier)"
   echo -e "$id\t$prop\trc=$rc\t$detail" | tee -a seeded/RESULTS.tsv.new
   python3 - "$d/meta.json" "$prop" "$rc" "$detail" <<'PY'
 import json, sys
 p, prop, rc, detail = sys.argv[1:5]
 m = json.load(open(p))
-m["my_checks"] = {"applied_to": "/repo (git apply, then git checkout -- .)", "command": "./check %s --tier quick" % prop,
+m["my_checks"] = {"applied_to": "/repo (git apply, then git checkout -- .)", "command": "./check %s --tier %s" % (prop.split("(")[0], "thorough" if "(" in prop else "quick"),
                   "exit_code": int(rc), "caught": int(rc) == 1, "first_detail": detail}
 json.dump(m, open(p, "w"), indent=1)
 PY
 done
-[ -f seeded/RESULTS.tsv.new ] && mv seeded/RESULTS.tsv.new seeded/RESULTS.tsv
+# merge: lines of ids that were not evaluated in this call are kept
+if [ -f seeded/RESULTS.tsv.new ]; then
+  python3 - <<'PY'
+import os
+old = {}
+if os.path.exists("seeded/RESULTS.tsv"):
+    for l in open("seeded/RESULTS.tsv"):
+        if l.strip():
+            old[l.split("\t")[0]] = l
+for l in open("seeded/RESULTS.tsv.new"):
+    if l.strip():
+        old[l.split("\t")[0]] = l
+open("seeded/RESULTS.tsv", "w").write("".join(old[k] for k in sorted(old)))
+os.remove("seeded/RESULTS.tsv.new")
+PY
+fi
